@@ -62,10 +62,12 @@ def run(ctx):
         "the hook roto::verif_hooks::c03 dumps the MIR the later stages consume, and the needs_drop bit is the LIR lowerer's own (Lowerer::needs_drop)",
         "ownership reading of MIR instructions (DESIGN §10): call arguments are consumed, Clone/Constant/Context/call results/String literals create, "
         "Move transfers; validated by the measured oracle (Tk counters, allocation balance) on every generated program",
-        "drop / clone glue (RotoV/Model/Glue.lean): the per-field loops are translated from drops.rs / clones.rs on every run; what surrounds them "
-        "(call_drop_of, call_clone_function, the discriminant switch with the last variant as default, layout_of, LayoutBuilder) is a hand model, "
+        "drop / clone glue (RotoV/Model/Glue.lean): the per-field loops, call_drop_of, call_clone_function, the arms of needs_drop / needs_clone / "
+        "get_runtime_drop / get_runtime_clone, the dispatch of generate_drop_body / generate_clone_body and the element-vtable conditions of call_runtime "
+        "are translated from drops.rs / clones.rs / lower.rs on every run (statement -> Step / CStmt / arm mapping in extract/src/targets/c03.rs); "
+        "the discriminant switch with the last variant as default, layout_of and LayoutBuilder are a hand model, "
         "compared with the generated drop functions in the real LIR for every generated declaration; the reference placement of leaves is the one of "
-        "Lowerer::location (fresh builder, tag first, every field added in order)",
+        "Lowerer::location (fresh builder, tag first, every field added in order); String and List are CloneDrop registered types",
         "the program quantifier is sampled: ownCheck and varCheck run on the compiler's actual output for generated programs and the repository's scripts",
         "variant layer (RotoV/Model/MirVariant.lean): a read `clone x.V.i` of a tracked variable is wrong iff x holds another variant of its type "
         "(variant numbers beyond the type's variants, which only the oracle of the semantics can produce, stand for no value); validated by the "
@@ -78,6 +80,7 @@ def run(ctx):
         rule="a class is distinct by (verdict, constructs used in main: while/for/match/guards/return/accept/reject/?/&&/||/record/enum/"
              "f-string/constant/list/wildcard/field-assign/push/contains/index/concat/swap/guards that assign with counts capped at 3); every program runs on 32 steering inputs "
              "(n,m in {0,1,2,5}, c in {false,true}), twice where balanced (second call measures heap allocations); corpus items count once; "
+             "a script over the zero-sized token (every class representative has such a twin; every third generated program) is a class of its own (zst:...); "
              "a glue program is distinct by the field pattern of its declarations (size class of each non-droppable field, D = droppable leaf, "
              "O = Tk?, R/E = nested record/enum, order kept)",
         search=search,
